@@ -29,6 +29,9 @@ PRIMS = {
     "os.getenv": ("OTHER", (), False),
     "fcntl.flock": ("FLOCK", (0,), True),
     "atexit.register": ("OTHER", (), False),
+    "os.register_at_fork": ("OTHER", (), False),   # hooks: judged by rule C16.g (what the callbacks touch)
+    "os.getpid": ("OTHER", (), False),
+    "os.getppid": ("OTHER", (), False),
     "tempfile.NamedTemporaryFile": ("CREATE", (), True),
     # not used by the package today; classified so that a realistic edit is judged, not refused
     "os.scandir": ("PROBE", (0,), True),
